@@ -89,7 +89,7 @@ PROPS["C04"] = [
                    ("int_float", "literal I-JSON int, node finite float"), ("cross", "literal int, node bool"))
 ] + [
     H("comparison", "c04_str_str", tiers="t", funcs=_C04_FUNCS, symbolic="two strings of <= 2 arbitrary Unicode scalars each",
-      shape="string x string", est=500, timeout=1800),
+      shape="string x string", est=500, timeout=3300),
     H("comparison", "c04_roled_arr_if_fi", funcs=_C04_FUNCS, role="D",
       symbolic="array elements: I-JSON int and finite float", shape="[int,float] vs [float,int]", est=8),
 ]
@@ -219,7 +219,7 @@ PROPS["C03"] = [
     H("selector", "c03_slice_route", tiers="t", funcs=_C03F + ["query::selector::process_slice"], symbolic="start absent or 0..2, end absent, step in {-1,-2}", shape="array of 3", est=2000, timeout=3000),
     H("selector", "c03_slice_route_fixed", tiers="t", timeout=3000, funcs=_C03F + ["query::selector::process_slice"], symbolic="element payloads only (slice parameters concrete: [::-2], [1::-1])", shape="array of 3", est=60),
     H("filter", "c03_filter_route_dup", tiers="t", funcs=_C03F + ["query::filter::Filter::process"], symbolic="element value x (both elements equal), I-JSON",
-      shape="[x, x], filter @ == x, real fmt", est=600, timeout=1800),
+      shape="[x, x], filter @ == x, real fmt", est=600, timeout=3300),
     H("selector", "c03_wildcard_route", funcs=_C03F + ["query::selector::process_wildcard"], symbolic="member values", shape="object {b,a} under $[7]; array of 2 under $['x']", est=90),
     H("selector", "c03_key_route_plain", funcs=_C03F + ["query::selector::process_key"], symbolic="member value", shape="names a and 'a' on {a}", est=15),
     H("selector", "c03_rolec_key_route_dquote", funcs=_C03F + ["query::selector::process_key"], role="C", symbolic="member value", shape="name \"a\" on {a}", est=15),
